@@ -42,7 +42,7 @@ def _fn_f(x):
 C_CARRIERS = {
     'list': list, 'tuple': tuple, 'USeq': U.USeq, 'UMSeq': U.UMSeq, 'GL': U.GL, 'deque': collections.deque,
     'set': set, 'frozenset': frozenset, 'USet': U.USet, 'UMSet': U.UMSet, 'UColl': U.UColl, 'URev': U.URev,
-    'UCont': U.UCont, 'UIter': U.UIter, 'GOut': U.GOut, 'gen': _gen, 'iter': iter, 'Counter': collections.Counter,
+    'UCont': U.UCont, 'UIter': U.UIter, 'GOut': U.GOut, 'DupSeqA': U.DupSeqA, 'DupSeqB': U.DupSeqB, 'DupSeqC': U.DupSeqC, 'gen': _gen, 'iter': iter, 'Counter': collections.Counter,
 }
 C_SRC = {'deque': 'collections.deque', 'gen': '(lambda it: (i for i in it))', 'Counter': 'collections.Counter'}
 M_CARRIERS = {
